@@ -8,6 +8,14 @@ Property theorems only. Model: `Model/Pool.lean` (labelled transition system of 
 Spec: `Spec/Pool.lean`. All theorems quantify over every reachable state, i.e. over every
 interleaving of the caller, the N workers and the recovery thread, for every N, every number of
 tasks and every panicking subset `c.panics`.
+
+Scope: ONE run of the pool. `start` is enabled only in `created`, so the reachable states — and with them every
+theorem below — cover the lifecycle scripts `start, execute*, stop?, drop`. Scripts that start the pool again
+(`… stop, start …`, any number of times; `start, start`) are in the property's quantifier but outside this model;
+they are covered by testing only: `./check C08` runs them on the real pool and judges the implementation's summary
+and event log with the executable predicates `PoolSpec.Summary.ok` / `PoolSpec.LogCounts.ok` (see `Driver/C08.lean`).
+Full-strength statement that is NOT proved: the theorems below for a transition system with generations of workers
+and the detached recovery thread of every earlier run.
 -/
 namespace Humphrey.Pool
 open PoolSpec
